@@ -37,7 +37,7 @@ func (d *DotGit) setRefRwfs(fileName, content string, old *plumbing.Reference) (
 			if err != nil {
 				return err
 			}
-			if ref.Hash() != old.Hash() {
+			if !sameReferenceValue(ref, old) {
 				return storage.ErrReferenceHasChanged
 			}
 		}
@@ -93,7 +93,7 @@ func (d *DotGit) setRefNorwfs(fileName, content string, old *plumbing.Reference)
 			return err
 		}
 
-		if ref.Hash() != old.Hash() {
+		if !sameReferenceValue(ref, old) {
 			return fmt.Errorf("reference has changed concurrently")
 		}
 	}
